@@ -98,6 +98,13 @@ def main(argv=None):
         f"{pid} {tier} seed={seed}: evaluations={col.evaluations} distinct_nontrivial={len(col.nontrivial_hashes)} "
         f"classes={dict(col.classes.most_common(12))} wall={round(__import__('time').time() - ctx.t0, 1)}s"
     )
+    if os.environ.get("VERIF_TRIAGE"):
+        os.makedirs(os.path.join(core.VERIF, "failures", pid), exist_ok=True)
+        rows = sorted(col.buckets.items(), key=lambda kv: -kv[1][0])
+        with open(os.path.join(core.VERIF, "failures", pid, "triage.json"), "w") as f:
+            json.dump([{"key": list(map(str, k)), "count": v[0], "case": v[1], "detail": v[2]} for k, v in rows], f, indent=1)
+        for k, v in rows[:40]:
+            print(f"  TRIAGE {v[0]:6d} {k[0]} " + " ".join(f"{a}={b}" for a, b in k[1:]))
     if nviol:
         reported = set()
         for path, fails in replay_viol:
